@@ -193,6 +193,7 @@ func main() {
 	n := flag.Int("n", 500, "number of generated cases")
 	in := flag.String("in", "", "replay: file of specs (JSON lines) instead of generating")
 	out := flag.String("out", "/dev/stdout", "output file (JSON lines)")
+	withCorpus := flag.Bool("corpus", true, "when generating: run the directed corpus (corpus.go) first")
 	flag.Parse()
 
 	type inLine struct {
@@ -210,12 +211,19 @@ func main() {
 			cases = append(cases, l)
 		})
 	} else {
+		if *withCorpus {
+			for _, c := range corpus() {
+				cases = append(cases, inLine{ID: len(cases), Kind: c.Kind, Spec: c.Spec})
+			}
+		}
+		nc := len(cases)
 		root := hlib.NewRand(*seed)
 		ks := kindsFor(*n)
 		for i := 0; i < *n; i++ {
 			kind := ks[i]
-			cases = append(cases, inLine{ID: i, Kind: kind, Spec: genSpec(root.Fork(uint64(i)), kind)})
+			cases = append(cases, inLine{ID: nc + i, Kind: kind, Spec: genSpec(root.Fork(uint64(i)), kind)})
 		}
+		fmt.Fprintf(os.Stderr, "c19: %d corpus cases, %d generated\n", nc, *n)
 	}
 	w := hlib.NewOut(*out)
 	counts := map[string]int{}
